@@ -517,7 +517,10 @@ def run_case(case, rec):
                 live = safe_get(subject, attr)
                 # attributes are coupled (dip / vertical, surveys / end_of_hole, ...): everything the entity shows now is what a
                 # later reader must see, not only the attribute that was assigned
-                coupled = {a: safe_get(subject, a) for a in attrs if a != attr and a not in ("parts",)} if kind not in ("header",) else {}
+                # (read in every other session only: a getter called between the assignment and the close may itself repair or
+                # complete what the setter left, and a session that only assigns and closes is the plainer use)
+                coupled = {a: safe_get(subject, a) for a in attrs if a != attr and a not in ("parts",)} if kind not in ("header",) and (i + n_attr) % 2 == 0 else {}
+                rec.see("sessions-that-only-assign" if not coupled else "sessions-reading-other-getters")
                 del subject
                 ws.close()
                 if ok:
